@@ -48,7 +48,7 @@ def main():
         cmd_demo = "cargo test --offline %s--test %s 2>&1 | tail -25" % (("-p %s " % pkg) if pkg else "", dname)
         rc, out = sh(cmd_demo, cwd=scratch)
         ok, failed = test_summary(out)
-        meta["demo_without_change"] = dict(passed=ok, failed=failed, ok=(ok > 0 and failed == 0 and "error" not in out.split("test result")[0][-300:]))
+        meta["demo_without_change"] = dict(passed=ok, failed=failed, ok=(ok > 0 and failed == 0))
         meta["ran"].append("unchanged tree: " + cmd_demo + " -> %d passed, %d failed" % (ok, failed))
         rc, out = sh("git apply %s" % patch, cwd=scratch)
         if rc != 0:
